@@ -16,9 +16,11 @@ def fp_part(part, score):
     out = {"id": part.id, "name": part.part_name, "abbrev": getattr(part, "part_abbreviation", None)}
     out["divisions"] = [[int(t), int(q)] for t, q in part.quarter_durations()]
     out["measures"] = sorted([m.start.t, m.end.t if m.end else None, m.number, m.name] for m in part.iter_all(score.Measure))
-    out["time_signatures"] = sorted([t.start.t, t.beats, t.beat_type] for t in part.iter_all(score.TimeSignature))
-    out["key_signatures"] = sorted([k.start.t, k.fifths, k.mode] for k in part.iter_all(score.KeySignature))
-    out["clefs"] = sorted([c.start.t, _n0(c.staff) or 1, c.sign, c.line, _n0(c.octave_change)] for c in part.iter_all(score.Clef))
+    # (signatures and clefs as sets: a repeated identical statement at one position says nothing more)
+    uniq = lambda rows: sorted([list(r) for r in set(tuple(r) for r in rows)], key=repr)
+    out["time_signatures"] = uniq([t.start.t, t.beats, t.beat_type] for t in part.iter_all(score.TimeSignature))
+    out["key_signatures"] = uniq([k.start.t, k.fifths, k.mode] for k in part.iter_all(score.KeySignature))
+    out["clefs"] = uniq([c.start.t, _n0(c.staff) or 1, c.sign, c.line, _n0(c.octave_change)] for c in part.iter_all(score.Clef))
     notes = {}
     for n in part.iter_all(score.GenericNote, include_subclasses=True):
         sd = n.symbolic_duration or {}
@@ -42,7 +44,8 @@ def fp_part(part, score):
     out["tuplets"] = sorted([nid(t.start_note), nid(t.end_note), t.actual_notes, t.normal_notes, t.actual_type, t.normal_type] for t in part.iter_all(score.Tuplet))
     dirs = []
     for d in part.iter_all(score.Direction, include_subclasses=True):
-        dirs.append([d.start.t, d.end.t if d.end is not None else None, cls(d), d.text, d.raw_text, _n0(d.staff) or None,
+        dirs.append([d.start.t, d.end.t if d.end is not None else None, cls(d), d.text, d.raw_text, _n0(d.staff) or 1,      # (a direction without staff is on staff 1)
+
                      bool(getattr(d, "wedge", False))])
     out["directions"] = sorted(dirs, key=repr)
     out["tempo"] = sorted([t.start.t, t.bpm, t.unit] for t in part.iter_all(score.Tempo))
